@@ -16,6 +16,7 @@ from pymbolic.interop.ast import (
 import pymbolic.compiler as compmod
 import pymbolic.interop.ast as astmod
 
+from .. import usertypes as U
 from ..core import check, short
 from ..gen import expr as G
 from ..mon.trace import HandlerTrace
@@ -56,13 +57,13 @@ def g_int(r, d, extra):
     if k == "sum":
         return p.Sum(tuple(g() for _ in range(r.randint(2, 4))))
     if k == "prod":
-        return p.Product(tuple(g() for _ in range(r.randint(2, 3))))
+        return (U.SubProduct if r.random() < 0.15 else p.Product)(tuple(g() for _ in range(r.randint(2, 3))))
     if k == "neg":
         return p.Product((-1, g()))
     if k == "fdiv":
-        return p.FloorDiv(g(), g())
+        return (U.SubFloorDiv if r.random() < 0.2 else p.FloorDiv)(g(), g())
     if k == "rem":
-        return p.Remainder(g(), g())
+        return (U.SubRemainder if r.random() < 0.2 else p.Remainder)(g(), g())
     if k == "pow":
         return p.Power(g(), r.choice([0, 1, 2, 3, p.Remainder(g(), 3)]))
     if k in ("lsh", "rsh"):
@@ -179,12 +180,22 @@ def c_compile(ctx, case):
     except Exception as ex:  # noqa: BLE001
         ctx.fail("C13.compile", case, f"pickle-raised:{type(ex).__name__}", f"{e}: {ex}")
         fn2 = None
+    # the round trip applied to its own output (a second generation), and plain copies
+    fn3 = fn4 = None
+    if fn2 is not None:
+        try:
+            import copy
+            fn3 = pickle.loads(pickle.dumps(pickle.loads(pickle.dumps(fn2))))
+            fn4 = copy.copy(copy.deepcopy(fn2))
+        except Exception as ex:  # noqa: BLE001
+            ctx.fail("C13.compile", case, f"repickle-raised:{type(ex).__name__}", f"{e}: {ex}")
     for _ in range(4):
         env = point(rng, [n for n in order if n not in FIXED and n != "m"])
         full = dict(fixed_env(), **env)
         env = {n: full[n] for n in order}
         want, faults, _ = refsem.expected(e, full)
-        for name, f in (("compiled", fn), ("unpickled", fn2)):
+        for name, f in (("compiled", fn), ("unpickled", fn2), ("unpickled-again", fn3),
+                        ("copied", fn4)):
             if f is None:
                 continue
             ctx.case(None)
@@ -380,8 +391,29 @@ def workload(ctx):
                 ctx.count("repeated_constant_shapes")
                 ctx.run("C13.compile", (e, [], False, i))
                 ctx.run("C13.ast", (e, i))
+        # lazy constructs whose unselected part FAULTS: the decided operand comes first, the
+        # faulty one later (or in the branch not taken); every shape at points that decide it
+        Zc = p.Comparison(X_, "==", 0)
+        bad = [p.Comparison(p.Quotient(12, X_), ">", 3), p.Comparison(p.Remainder(Y_, X_), "<", 1),
+               p.Comparison(p.LeftShift(1, p.Product((-1, p.Power(X_, 0)))), ">", 0),
+               p.Comparison(p.FloorDiv(Y_, p.Product((X_, 2))), "!=", 7)]
+        lazy = []
+        for b in bad:
+            lazy += [p.LogicalOr((Zc, b)), p.LogicalAnd((p.LogicalNot(Zc), b)),
+                     p.LogicalOr((Zc, b, p.Comparison(Y_, "<", 0))),
+                     p.If(Zc, Y_, p.If(b, 1, 2)), p.If(p.LogicalNot(Zc), p.If(b, 1, 2), Y_),
+                     p.LogicalAnd((p.LogicalOr((Zc, b)), p.Comparison(Y_, ">=", Y_)))]
+        for i, e in enumerate(lazy):
+            if not ctx.mine("lazy"):
+                continue
+            ctx.case(normal.typed_key(e), True, n=0)
+            ctx.count("lazy_fault_shapes")
+            for seed in range(3):
+                ctx.run("C13.compile", (e, ["x"], False, 1000 * i + seed))
+            ctx.run("C13.ast", (e, i))
         for k, v in tr.handlers().items():
             ctx.count("handler:" + k, v)
+    ctx.floor("lazy_fault_shapes", 20)
     ctx.floor("repeated_constant_shapes", 100)
     ctx.floor("compiled", 2000)
     ctx.floor("compiled_calls", 10000)
